@@ -845,7 +845,19 @@ impl<F: MatchFunc> Aligner<F> {
 
         let mut last_layer = self.traceback.get(i, j).get_s_bits();
 
+        // Verification hook (feature `verif-hooks`): every traceback step consumes a symbol
+        // or is one of at most four clips, so the loop is bounded in logical steps.
+        #[cfg(feature = "verif-hooks")]
+        let mut verif_steps = 0usize;
         loop {
+            #[cfg(feature = "verif-hooks")]
+            {
+                verif_steps += 1;
+                assert!(
+                    verif_steps <= 2 * (m + n) + 16,
+                    "VERIF-HOOK traceback step bound exceeded"
+                );
+            }
             let next_layer: u16;
             match last_layer {
                 TB_START => break,
